@@ -100,28 +100,28 @@ Theorem C20_late_serial : forall inb scr sy sched,
 Proof. intros inb scr sy sched. apply (serial false inb 0 scr [] sy sched). Qed.
 Print Assumptions C20_late_serial.
 
-(* ---- do the bytes an OnData invocation was offered stay readable until it returns?  Not always. ----
-   Close() reads callbackInProcess = 0; an arrival then starts a goroutine whose OnData begins; close() wins
-   its CAS and waits for the goroutine; the NEXT arrival finds the state closed and the event loop runs
-   fillDataToReadBuffer's closed path: pendingData.clear() AND recvBuf.recycle() — on the buffer the running
-   OnData is reading (with shared-memory slices: the buffers go back to the free list under its zero-copy
-   view).  Reproduced on the real code under the scheduler (signature
-   "C20:event-loop-recycles-recvBuf-while-OnData-is-reading"). *)
-Definition C20_view_stable : Prop := view_stable_stmt.
-Theorem C20_view_stable_refuted : ~ C20_view_stable.
-Proof.
-  intros H.
-  specialize (H true [EData [1; 2; 3]; EData [4]] 1%nat [(3%nat, 0%nat)] [] []
-                ([WClo 0; WClo 0] ++ repeat WEv 6 ++ repeat (WGor 0) 3 ++ [WClo 0; WClo 0] ++ repeat WEv 3)).
-  vm_compute in H. assert (E : [] = [1; 2; 3]) by (apply H; discriminate). discriminate.
-Qed.
-Print Assumptions C20_view_stable_refuted.
-(* the event loop touches recvBuf only in that closed path *)
-Theorem C20_view_stable_partial : forall cb0 inb nc scr ups sy sched,
+(* ---- the bytes an OnData invocation was offered stay readable until it returns: while an OnData runs, the event
+   loop never touches recvBuf.  Formerly refuted (C20_view_stable_refuted; signature
+   "C20:event-loop-recycles-recvBuf-while-OnData-is-reading"): Close() read callbackInProcess = 0, an arrival then
+   started a goroutine whose OnData began, close() won its CAS and waited for it, and the NEXT arrival found the
+   state closed and ran fillDataToReadBuffer's closed path, which recycled recvBuf under the running OnData.
+   Since the repair that path recycles recvBuf only when no callbacks are installed (then there is no goroutine
+   at all); with callbacks, close()/clean() recycle it after wg.Wait.  The witness schedule is the regression
+   example below and a regression scenario of the harness. ---- *)
+Theorem C20_view_stable : forall cb0 inb nc scr ups sy sched,
   let s := run sched (init_sy cb0 inb nc scr ups sy) in
-  st s <> c_streamClosed -> recv (step s WEv) = recv s.
-Proof. exact view_stable_partial. Qed.
-Print Assumptions C20_view_stable_partial.
+  cz g_run (gors s) >= 1 -> recv (step s WEv) = recv s.
+Proof. exact view_stable. Qed.
+Print Assumptions C20_view_stable.
+
+Example C20_regress_recycle_under_OnData :
+  let s := run ([WClo 0; WClo 0] ++ repeat WEv 6 ++ repeat (WGor 0) 3 ++ [WClo 0; WClo 0] ++ repeat WEv 4)
+               (init true [EData [1; 2; 3]; EData [4]] 1 [(3%nat, 0%nat)] []) in
+  cz g_run (gors s) = 1 /\ st s = c_streamClosed /\ epc s = EIdle /\ pending s = [] /\ recv s = [1; 2; 3] /\
+  (* OnData then reads all it was offered; close() cleans up afterwards *)
+  let s' := run (repeat (WGor 0) 20 ++ repeat (WClo 0) 10) s in
+  consumed s' = [1; 2; 3] /\ recv s' = [] /\ intable s' = false /\ nlocal s' = 1.
+Proof. vm_compute. repeat split. Qed.
 
 (* non-vacuity 1: three messages; the second arrives while OnData runs, the third just after the goroutine
    cleared the flag and before its re-check; OnData consumes 1, 0, 2, then everything; the run is quiescent,
